@@ -1340,6 +1340,11 @@ class ChainWalk:
             return
         self.checkpoint = joins[0]
         self.inner_tests = {t.id for t in g.nodes if t.kind == "test" and any(attr_of(x, "callbacks", self.cur) for x in ast.walk(t.ast))}
+        # where a round begins by role: the tests a round starts with - is the current Deferred paused? has it callbacks? -
+        # so that a hand-over which makes the waiting Deferred the loop's next work item *without* going round the outer loop
+        # (cursor re-pointed, inner loop continued) is judged at that point
+        self.round_starts = set(self.inner_tests) | {t.id for t in g.nodes if t.kind == "test" and g.reachable(t.id)
+                                                      and any(attr_of(x, "paused", self.cur) for x in ast.walk(t.ast))}
         # phase 1: from the entry to the first arrival at the checkpoint -> how is the current Deferred kept?
         first = self._explore(g.entry, ((), frozenset(), False, False, False, False), stop_at_start=False)
         modes = set()
@@ -1384,6 +1389,10 @@ class ChainWalk:
             phys, envf, hand, chained, inner, exh = st
             env = dict(envf)
             node = g.node(nid)
+            if hand and env.get(self.cur) == "W" and nid in getattr(self, "round_starts", ()) and nid != start:
+                # the waiting Deferred has become the current work item: the hand-over round ends here
+                results.append(("handover-exhausted" if exh else "handover", phys, envf, False, path_to((nid, st))))
+                continue
             if node.kind == "stmt":
                 phys, env, hand, fresh = self._stmt(node, nid, phys, env, hand, fresh)
                 if nid in self.S.regs:
